@@ -18,8 +18,9 @@ from vlib import Check, standard_proof_phase, correspond, ddmin, VERIF
 
 PID = 'C19'
 MANIFEST = dict(
-    text='Machine-checked (Coq): for every well-formed template over literal text, {{, }}, {name}, {name:spec} the faithful model of _process_named_args_format_message returns the positional format string and the (name, spec) list (C19_scan_print); the text equals mini-fmt of the positional string = per-field renderings in order (C19_text); the structured pairs are zip(names ++ _i, per-spec renderings) in argument order when no rendering holds the 3-byte separator (C19_pairs); the template cache never changes a result (C19_cache_transparent); _contains_named_args agrees with "has a placeholder" when the first placeholder name starts with a letter (C19_contains_agrees); the JSON sink line has the fixed member sequence, the template with newlines replaced by spaces, every newline of a key or value written as backslash-n and exactly one newline, at the end, for every template and every list of pairs (C19_json_shape, C19_json_one_line); it is recognised as the expected JSON object when no byte needs escaping (C19_json_parses) and, with newlines inside keys/values, as the object holding the original keys/values (C19_json_parses_nl). The model has two variant flags (scanner: skip, sink: esc); the variant that stands for the code is read from the source on every run (TieC19: src_scan_skip = false, src_json_esc = true, the regenerated body texts equal the expected ones); the former findings D11 (}} after a placeholder mis-scanned) and D16 (a newline in a value splits the JSON line) remain as refutations about the pinned variants (C19_scan_adj_refuted, C19_json_nl_refuted, with the partial theorems that held for them). Open refutation with a replay on the real code: D12 (separator bytes in a value); also the adjacency weakness of _contains_named_args. libfmt is a Section oracle (per-field rendering) plus the mini-fmt field parser; both are sampled against fmtquill on every run.',
-    design='5 C19', technique='Coq proofs over an executable model of the named-args path + extracted-model/implementation differential correspondence (unit and end-to-end) + direct property monitors')
+    text='Machine-checked (Coq): for every well-formed template over literal text, {{, }}, {name}, {name:spec} the faithful model of _process_named_args_format_message returns the positional format string and the (name, spec) list (C19_scan_print); the text equals mini-fmt of the positional string = per-field renderings in order (C19_text); the structured pairs are zip(names ++ _i, per-spec renderings) in argument order when no rendering holds the 3-byte separator (C19_pairs); the template cache never changes a result (C19_cache_transparent); _contains_named_args agrees with "has a placeholder" when the first placeholder name starts with a letter (C19_contains_agrees); the JSON sink line has the fixed member sequence, the template with newlines replaced by spaces, every newline of a key or value written as backslash-n and exactly one newline, at the end, for every template and every list of pairs (C19_json_shape, C19_json_one_line); it is recognised as the expected JSON object when no byte needs escaping (C19_json_parses) and, with newlines inside keys/values, as the object holding the original keys/values (C19_json_parses_nl). The model has two variant flags (scanner: skip, sink: esc); the variant that stands for the code is read from the source on every run (TieC19: src_scan_skip = false, src_json_esc = true, the regenerated body texts equal the expected ones); the former findings D11 (}} after a placeholder mis-scanned) and D16 (a newline in a value splits the JSON line) remain as refutations about the pinned variants (C19_scan_adj_refuted, C19_json_nl_refuted, with the partial theorems that held for them). Open refutation with a replay on the real code: D12 (separator bytes in a value); also the adjacency weakness of _contains_named_args. libfmt is a Section oracle (per-field rendering) plus the mini-fmt field parser; both are sampled against fmtquill on every run.'
+         ' The named-argument vector of a reused transit event slot: whatever an earlier statement left in the slot, _populate_formatted_named_args (resize to the number of names, keys and values by index; shape read from the source) leaves exactly this statement\'s pairs (C19_slot_pairs_exact, refuted for the appending variant); the deterministic backend driver runs named and positional statements on 2- and 4-slot transit buffers with throwing sinks and formatters, monitor: a sink sees exactly the statement\'s own pairs.',
+    design='5 C19', technique='Coq proofs over an executable model of the named-args path + extracted-model/implementation differential correspondence (unit, end-to-end and backend driver) + source-fact translator + direct property monitors')
 TRUSTED = [
     'Coq 8.16.1 kernel (coqc, vm_compute for the refutation/non-vacuity examples and the T-src tie; no native_compute)',
     'T-src: tools/srcfacts.py c19_facts (clang AST skeletons + comment-stripped, white-space-normalised body text of JsonSink::generate_json_message / _append_escaping_newlines and BackendWorker::_process_named_args_format_message); that the Gallina variants esc = true / skip = false are faithful to those texts is by inspection (and sampled by the correspondence on every run)',
